@@ -12,6 +12,7 @@
 //   union  - 2..5 sketches of unequal lgK (empty / sparse / hybrid / pinned / sliding), several permutations, a fresh
 //            union per permutation, lvalue and rvalue update, results observed, updated further and serialized
 //   big    - larger K, updates logged in batches (UpdateMany) between boundaries
+//   delete / long - the surprising-value table under stress in SLIDING flavor (see seg_delete / seg_long)
 // Serialization (bytes and stream, header sizes, custom seed) and copies happen at random points; the restored sketch
 // and its original then receive the same further updates (events on restored objects carry "restored":true).
 #include <memory>
@@ -461,6 +462,95 @@ static void seg_aimed(World& w, int lgk, int shifts) {
   if (w.sk[NS - 4]) { fill_aimed(w, NS - 4, (long)w.sk[NS - 4]->get_num_coupons() + K, 6 * K, 3, true); ev_obs(w, NS - 4); }
 }
 
+// ---------------------------------------------------------------------------------------------------------
+// surprising-value table under stress (SLIDING flavor): the table is an open-addressing hash table indexed by the HIGH bits
+// of (row << 6 | col), with deletions (a coupon arriving in the early zone deletes its "surprising 0") and cluster repair.
+//   seg_delete - aimed: the last ("hot") rows keep holes in their early / window columns while the other rows are filled
+//                column-wise, so that after each window move the surprising 0s and 1s pile up at the END of the slot array
+//                (probe clusters that wrap around to slot 0); the holes are then filled in random order (deletions inside
+//                those clusters), hot late-zone coupons are inserted and repeated.  Obs every ~120 updates and at every move.
+//   seg_long   - plain random stream far beyond 27K/8 (tens of thousands of items, many window moves), logged in small
+//                batches, Obs every few hundred updates and around every boundary.
+// ---------------------------------------------------------------------------------------------------------
+static void seg_delete(World& w, int lgk) {
+  long K = 1L << lgk;
+  build_pool(w, lgk);
+  ev_new(w, 0, lgk);
+  cpc_sketch& s = *w.sk[0];
+  const int cols = w.pool_cols;
+  long hot = std::max(2L, K / (long)w.g.range(4, 8));          // rows K-hot .. K-1
+  if (w.g.chance(25)) hot = std::max(2L, K / 2);
+  std::vector<uint8_t> mine(K * 64, 0);
+  long since_obs = 0, cap = 60 * K + 2000;
+  auto offer = [&](int row, int col) -> bool {
+    Item it;
+    if (col < 0 || col >= cols || !pool_item(w, row, col, it)) return false;
+    mine[row * 64 + col] = 1;
+    upd_watch(w, 0, it);
+    since_obs++;
+    return true;
+  };
+  for (long n = 0; n < cap && w.budget > 0; n++) {
+    long c = s.get_num_coupons();
+    long off = std::max(0L, (8 * c - 19 * K)) / (8 * K);
+    if (off + 9 >= cols) break;                               // the pool has no further columns
+    int mode = (int)w.g.below(100);
+    bool done = false;
+    if (mode < 46) {
+      // cold rows: lowest unfilled column first (keeps C growing and the cold rows free of surprises)
+      for (int col = 0; col < off + 8 && !done; col++) {
+        int r0 = (int)w.g.below(K - hot);
+        for (long q = 0; q < K - hot && !done; q++) {
+          int row = (int)((r0 + q) % (K - hot));
+          if (!mine[row * 64 + col]) done = offer(row, col);
+        }
+      }
+      if (!done) mode = 50;
+    }
+    if (!done && mode < 70) {
+      // hot rows, early zone: fill a hole = delete a surprising 0 (random hole, biased to the very last rows)
+      for (int t = 0; t < 24 && !done; t++) {
+        int row = (int)(K - 1 - std::min<long>(w.g.below(hot), w.g.below(hot)));
+        int col = off > 0 ? (int)w.g.below(off) : (int)w.g.below(3);
+        if (!mine[row * 64 + col]) done = offer(row, col);
+      }
+      if (!done) mode = 75;
+    }
+    if (!done && mode < 86) {
+      // hot rows, late zone: surprising 1s (new ones, or the same coupon again)
+      int row = (int)(K - 1 - w.g.below(hot));
+      int col = (int)off + 8 + (int)w.g.below(4);
+      done = offer(row, col);
+    }
+    if (!done && mode < 93) {
+      // hot rows, window
+      int row = (int)(K - 1 - w.g.below(hot));
+      done = offer(row, (int)off + (int)w.g.below(8));
+    }
+    if (!done) { upd_watch(w, 0, draw_wide(w.g)); since_obs++; }
+    if (since_obs >= 120) { ev_obs(w, 0); since_obs = 0; }
+    side_ops(w, 0, 1);
+  }
+  ev_obs(w, 0);
+}
+
+static void seg_long(World& w, int lgk, long n_updates) {
+  long K = 1L << lgk;
+  ev_new(w, 0, lgk);
+  cpc_sketch& s = *w.sk[0];
+  long done = 0, since_obs = 0;
+  long bs = K <= 32 ? (long)w.g.range(8, 16) : (long)w.g.range(24, 64);   // small batches straddle the boundaries (K coupons apart)
+  while (done < n_updates && w.budget > 0) {
+    std::vector<Item> items;
+    for (long q = 0; q < bs; q++) items.push_back(draw_wide(w.g));
+    upd_many(w, 0, items);
+    done += bs; since_obs += bs;
+    if (near_boundary(K, (long)s.get_num_coupons()) || since_obs >= 300) { ev_obs(w, 0); since_obs = 0; }
+    side_ops(w, 0, 1);
+  }
+  ev_obs(w, 0);
+}
+
 static void seg_big(World& w, int lgk, int shifts) {
   long K = 1L << lgk;
   ev_new(w, 0, lgk);
@@ -567,7 +657,7 @@ int main(int argc, char** argv) {
   long events = vt::argl(argc, argv, "--events", 4000);
   int maxlgk = (int)vt::argl(argc, argv, "--maxlgk", 10);
   int serde_pct = (int)vt::argl(argc, argv, "--serde", 4);
-  std::string kinds = vt::arg(argc, argv, "--kinds", "saubsaus");   // s sweep, a aimed, u union, b big
+  std::string kinds = vt::arg(argc, argv, "--kinds", "saubdrus");   // s sweep, a aimed, u union, b big, d deletion-heavy aimed, r long random
   vt::open_out(vt::arg(argc, argv, "--out", "/dev/stdout"));
   World w(seed);
   w.serde_pct = serde_pct;
@@ -579,12 +669,23 @@ int main(int argc, char** argv) {
     w.budget = events;
     char kind = kinds[seg % kinds.size()];
     Ev("Begin").i("seg", seg).str("kind", std::string(1, kind)).i("seed", (long long)w.seed).emit();
+    try {
     switch (kind) {
       case 's': { int lgk = (int)w.g.range(4, std::min(maxlgk, 7)); seg_sweep(w, lgk, (int)w.g.range(1, lgk <= 5 ? 5 : 3)); break; }
       case 'a': { int lgk = (int)w.g.range(4, 6); seg_aimed(w, lgk, (int)w.g.range(3, lgk == 4 ? 12 : (lgk == 5 ? 10 : 8))); break; }
       case 'u': seg_union(w, maxlgk); break;
+      case 'd': seg_delete(w, (int)w.g.range(4, std::min(maxlgk, 8))); break;
+      case 'r': { int lgk = (int)w.g.range(4, std::min(maxlgk, 8)); seg_long(w, lgk, (long)w.g.range(20000, 40000)); break; }
       case 'b': { int lgk = (int)w.g.range(std::min(8, maxlgk), maxlgk); seg_big(w, lgk, (int)w.g.range(0, 3)); break; }
       default: break;
+    }
+    } catch (const std::exception& ex) {
+      // an exception out of a public call on valid input (the library's own consistency checks are std::logic_error):
+      // logged as an event the specification has no action for, so the events before it are still validated and the
+      // segment is rejected at this point at the latest; the next segment starts from scratch
+      std::string what = ex.what();
+      for (auto& ch : what) if (ch == '"' || ch == '\\' || (unsigned char)ch < 32) ch = ' ';
+      Ev("Exception").str("what", what).emit();
     }
   }
   vt::close_out();
